@@ -3,10 +3,12 @@
 package main
 
 import (
+	"context"
 	"errors"
 	"fmt"
 	"io"
 	"net/http"
+	"net/http/httptest"
 	"runtime"
 	"sort"
 	"strings"
@@ -111,6 +113,7 @@ func upgradesArg(mode string) string {
 // the scheduler (runs inside one bubble)
 
 type sched struct {
+	mux     *http.ServeMux
 	e       *agentEnv
 	clock   atomic.Int64
 	mu      sync.Mutex
@@ -151,10 +154,25 @@ func (sc *sched) launch(op opSpec) *opResult {
 	sc.results = append(sc.results, r)
 	sc.mu.Unlock()
 	st := sc.e.iface
+	var cancel context.CancelFunc
+	ctx := context.Background()
+	if op.Kind == "web-auth-abandon" {
+		if sc.mux == nil {
+			sc.mux, _ = newWebHandler(sc.e.iface)
+		}
+		ctx, cancel = context.WithCancel(ctx)
+	}
 	go func() {
 		r.Call = sc.tick()
 		var err error
 		switch op.Kind {
+		case "web-auth-abandon":
+			// an HTTP client that goes away (connection closed / client timeout) while its request is queued
+			body := fmt.Sprintf(`{"username":%q,"password":%q}`, op.User, op.PW)
+			req := httptest.NewRequest("POST", "/api/authenticate", strings.NewReader(body)).WithContext(ctx)
+			rec := httptest.NewRecorder()
+			sc.mux.ServeHTTP(rec, req)
+			r.OK = rec.Code == 200
 		case "auth":
 			var ok, adm bool
 			ok, adm, _, err = st.Authenticate(op.User, op.PW)
@@ -205,6 +223,10 @@ func (sc *sched) launch(op opSpec) *opResult {
 		sc.mu.Unlock()
 	}()
 	synctest.Wait()
+	if cancel != nil {
+		cancel()
+		synctest.Wait()
+	}
 	return r
 }
 
